@@ -44,6 +44,63 @@ theorem intersection_closed (c d : Char) (hc : dnaTable.isCode c = true) (hd : d
     ∃ e, dnaTable.intersect c d = .ok e ∧ dnaTable.maskC e = dnaTable.maskC c &&& dnaTable.maskC d :=
   CodeTable.intersect_ok dna_lawful hc hd hne
 
+
+/-- Boolean equality of intersection results (used to state table-wide laws decidably) -/
+def resEq : Except CodeTable.Err Char → Except CodeTable.Err Char → Bool
+  | .ok a, .ok b => a == b
+  | .error a, .error b => decide (a = b)
+  | _, _ => false
+
+theorem resEq_eq {a b : Except CodeTable.Err Char} (h : resEq a b = true) : a = b := by
+  cases a <;> cases b <;> simp_all [resEq]
+
+/-- intersection does not depend on the order of its operands — for every pair of codes of the live table,
+    error outcomes (no common base) included -/
+theorem intersect_comm (c d : Char) (hc : c ∈ dnaTable.codes) (hd : d ∈ dnaTable.codes) :
+    dnaTable.intersect c d = dnaTable.intersect d c := by
+  have h : dnaTable.codes.all (fun c => dnaTable.codes.all (fun d =>
+      resEq (dnaTable.intersect c d) (dnaTable.intersect d c))) = true := by decide
+  exact resEq_eq (List.all_eq_true.1 (List.all_eq_true.1 h c hc) d hd)
+
+/-- intersecting a code with itself returns it -/
+theorem intersect_idem (c : Char) (hc : c ∈ dnaTable.codes) : dnaTable.intersect c c = .ok c := by
+  have h : dnaTable.codes.all (fun c => resEq (dnaTable.intersect c c) (.ok c)) = true := by decide
+  exact resEq_eq (List.all_eq_true.1 h c hc)
+
+/-- complementing commutes with intersection: whenever `c ∩ d = e`, the complements of `c` and `d` intersect in
+    the complement of `e` (what lets the designer front-end merge the template of a position with the
+    complemented template of its partner in either order) -/
+theorem compl_intersect (c d e : Char) (hc : c ∈ dnaTable.codes) (hd : d ∈ dnaTable.codes)
+    (h : dnaTable.intersect c d = .ok e) :
+    ∃ c' d' e', dnaTable.complOf c = some c' ∧ dnaTable.complOf d = some d' ∧ dnaTable.complOf e = some e' ∧
+      dnaTable.intersect c' d' = .ok e' := by
+  have hb : dnaTable.codes.all (fun c => dnaTable.codes.all (fun d =>
+      match dnaTable.intersect c d, dnaTable.complOf c, dnaTable.complOf d with
+      | .ok e, some c', some d' =>
+        (match dnaTable.complOf e with
+         | some e' => resEq (dnaTable.intersect c' d') (.ok e')
+         | none => false)
+      | .ok _, _, _ => false
+      | .error _, _, _ => true)) = true := by decide
+  have := List.all_eq_true.1 (List.all_eq_true.1 hb c hc) d hd
+  rw [h] at this
+  cases hcc : dnaTable.complOf c with
+  | none => simp [hcc] at this
+  | some c' =>
+    cases hdd : dnaTable.complOf d with
+    | none => simp [hcc, hdd] at this
+    | some d' =>
+      cases hee : dnaTable.complOf e with
+      | none => simp [hcc, hdd, hee] at this
+      | some e' =>
+        simp only [hcc, hdd, hee] at this
+        exact ⟨c', d', e', rfl, rfl, rfl, resEq_eq this⟩
+
+/-- non-vacuity of the three laws: `B ∩ H = Y` and, complemented, `V ∩ D = R` -/
+example : resEq (dnaTable.intersect 'B' 'H') (.ok 'Y') = true ∧ resEq (dnaTable.intersect 'V' 'D') (.ok 'R') = true ∧
+    dnaTable.complOf 'B' = some 'V' ∧ dnaTable.complOf 'H' = some 'D' ∧ dnaTable.complOf 'Y' = some 'R' ∧
+    'B' ∈ dnaTable.codes ∧ 'H' ∈ dnaTable.codes := by decide
+
 /-- non-vacuity: the live table has the 15 IUPAC codes and `D ∩ V` exists -/
 example : dnaTable.codes.length = 15 ∧
     (match dnaTable.intersect 'D' 'V' with | .ok e => e == 'R' | _ => false) = true := by decide
